@@ -2,6 +2,7 @@ package unitchain
 
 import (
 	"context"
+	"errors"
 	"fmt"
 	"strings"
 	"sync"
@@ -189,7 +190,8 @@ func runC36(run *mon.Run, thorough bool) {
 	}
 	run.Set("bound", fmt.Sprintf("every tree with 1..%d rounds below the root, 1..%d notarized blocks per round, every assignment of parents (ordered by rank), x {0,1,2} trailing rounds without notarized blocks x {PrevBlock linked, PrevBlock resolved through the block cache}", maxDepth, maxWidth))
 	run.Assume("every block of the tree is locally available (linked or in the block cache with computed state): fetching a missing previous block from the network is out of reach")
-	run.Assume("chain-extension part: the harness stands in for the finalized-block worker (it records the block, sets it as latest finalized block and reports success); notarized blocks of a round are all known before a later round is finalized (a late notarization on a competing fork makes finalizeRound roll the latest finalized block back by design - observed, not judged)")
+	run.Assume("chain-extension part: the harness stands in for the finalized-block worker (it records the block, sets it as latest finalized block and reports success); in the plain growth histories notarized blocks of a round are all known before a later round is finalized; late notarizations on a competing fork (growth histories marked late, and the whole rollback part) are judged by the single-chain rule: the latest finalized block stays, moves to a descendant, or rolls back to the most recent common ancestor of itself and the notarized blocks of the latest round")
+	run.Assume("rollback part: the stand-in for the finalized-block worker refuses a block whose previous block is not the latest finalized block, as the real worker does (finalizeBlockProcess: 'previous round not finalized' / 'could not connect to lfb')")
 
 	// ---- exhaustive part
 	trees := 0
@@ -344,8 +346,15 @@ func runC36(run *mon.Run, thorough bool) {
 	}
 
 	// ---- chain extension: repeated finalizeRound over growing trees
-	c36Growth(run, e, rnd.Fork("growth"), thorough)
+	e.c.SetViewChanger(noopViewChanger{})
+	wk := c36StartWorker(e.c)
+	c36Growth(run, e, wk, rnd.Fork("growth"), thorough)
 
+	// ---- rollbacks: the latest finalized block on a fork that lost, competing forks that fork again
+	c36Rollbacks(run, e, wk, rnd.Fork("rollback"), thorough)
+	wk.stop()
+	// let the notification goroutines started by SetLatestFinalizedBlock drain before the state DB is closed
+	time.Sleep(50 * time.Millisecond)
 }
 
 type noopViewChanger struct{}
@@ -353,31 +362,78 @@ type noopViewChanger struct{}
 func (noopViewChanger) ViewChange(ctx context.Context, lfb *block.Block) error { return nil }
 
 type finEvent struct {
-	b       *block.Block
-	prevLFB *block.Block
+	b        *block.Block
+	prevLFB  *block.Block
+	accepted bool
 }
 
-func c36Growth(run *mon.Run, e *c36Env, rnd *mon.Rand, thorough bool) {
-	c := e.c
-	c.SetViewChanger(noopViewChanger{})
+// c36Worker stands in for FinalizedBlockWorker: it receives the blocks finalizeRound hands over, records them and
+// makes them the latest finalized block. With requireConnected it refuses a block whose previous block is not the
+// latest finalized block (the real worker's connection check).
+type c36Worker struct {
+	c                *chain.Chain
+	ctx              context.Context
+	cancel           context.CancelFunc
+	done             chan struct{}
+	mu               sync.Mutex
+	events           []finEvent
+	requireConnected bool
+}
+
+func c36StartWorker(c *chain.Chain) *c36Worker {
 	ctx, cancel := context.WithCancel(context.Background())
-	defer cancel()
-	var mu sync.Mutex
-	var events []finEvent
-	go func() { // stand-in for FinalizedBlockWorker
+	wk := &c36Worker{c: c, ctx: ctx, cancel: cancel, done: make(chan struct{})}
+	go func() {
+		defer close(wk.done)
 		for {
 			b, res := c.VerifUnitchainNextFinalized(ctx)
 			if b == nil {
 				return
 			}
-			mu.Lock()
-			events = append(events, finEvent{b, c.GetLatestFinalizedBlock()})
-			mu.Unlock()
+			lfb := c.GetLatestFinalizedBlock()
+			wk.mu.Lock()
+			ok := !wk.requireConnected || b.PrevHash == lfb.Hash
+			wk.events = append(wk.events, finEvent{b, lfb, ok})
+			wk.mu.Unlock()
+			if !ok {
+				res <- errors.New("could not connect to lfb")
+				continue
+			}
 			c.SetLatestOwnFinalizedBlockRound(b.Round)
 			c.SetLatestFinalizedBlock(b)
 			res <- nil
 		}
 	}()
+	return wk
+}
+
+func (wk *c36Worker) setRequireConnected(v bool) {
+	wk.mu.Lock()
+	wk.requireConnected = v
+	wk.mu.Unlock()
+}
+
+func (wk *c36Worker) reset() {
+	wk.mu.Lock()
+	wk.events = wk.events[:0]
+	wk.mu.Unlock()
+}
+
+func (wk *c36Worker) take() []finEvent {
+	wk.mu.Lock()
+	defer wk.mu.Unlock()
+	return append([]finEvent{}, wk.events...)
+}
+
+func (wk *c36Worker) stop() {
+	wk.cancel()
+	<-wk.done
+}
+
+func c36Growth(run *mon.Run, e *c36Env, wk *c36Worker, rnd *mon.Rand, thorough bool) {
+	c := e.c
+	ctx := wk.ctx
+	wk.setRequireConnected(false)
 	nChains, maxRounds := 150, 14
 	if thorough {
 		nChains, maxRounds = 3000, 30
@@ -413,13 +469,9 @@ func c36Growth(run *mon.Run, e *c36Env, rnd *mon.Rand, thorough bool) {
 			rounds = append(rounds, r)
 			call := func(tag string) {
 				lfbBefore := c.GetLatestFinalizedBlock()
-				mu.Lock()
-				events = events[:0]
-				mu.Unlock()
+				wk.reset()
 				c.VerifUnitchainFinalizeRound(ctx, r)
-				mu.Lock()
-				evs := append([]finEvent{}, events...)
-				mu.Unlock()
+				evs := wk.take()
 				run.Eval(1)
 				run.Count("growth_finalize_round_calls", 1)
 				lfbAfter := c.GetLatestFinalizedBlock()
@@ -428,6 +480,9 @@ func c36Growth(run *mon.Run, e *c36Env, rnd *mon.Rand, thorough bool) {
 					if lfbAfter.Round < lfbBefore.Round {
 						run.Count("obs_rollback_after_late_notarization", 1)
 					}
+					// a late notarization may roll the latest finalized block back: judged by the single-chain rule
+					c36JudgeCall(run, "late", lfbBefore, lfbAfter, topBlocks, parent, evs,
+						fmt.Sprintf("chain %d round %d (%s); growth: %s", ci, t, tag, strings.Join(shape, " ")), replay)
 					return
 				}
 				cur := lfbBefore
@@ -513,6 +568,429 @@ func c36Growth(run *mon.Run, e *c36Env, rnd *mon.Rand, thorough bool) {
 		}
 		c.DeleteBlocks(all)
 	}
-	// let the notification goroutines started by SetLatestFinalizedBlock drain before the state DB is closed
-	time.Sleep(50 * time.Millisecond)
+}
+
+// ---------------------------------------------------------------------------------------------------------------
+// property-level oracle for one finalizeRound call (ancestry from the harness' own parent map, never from the code)
+// ---------------------------------------------------------------------------------------------------------------
+
+// c36JudgeCall judges the move of the latest finalized block made by one finalizeRound call:
+//   - every block the worker accepted is a strict descendant of the latest finalized block at that moment;
+//   - afterwards the latest finalized block is the same block, or a strict descendant that is an ancestor (in an
+//     earlier round) of every notarized block of the latest round that has any, or - a rollback - a strict ancestor
+//     of the previous one that is an ancestor of every such notarized block, and the most recent such ancestor.
+//
+// Anything else (a block of another fork) breaks "finalized blocks form one chain". Returns the kind of move.
+func c36JudgeCall(run *mon.Run, pfx string, before, after *block.Block, tops []*block.Block,
+	parent map[*block.Block]*block.Block, evs []finEvent, where string, replay interface{}) string {
+	isAnc := func(a, b *block.Block) bool { // a is an ancestor of b or b itself
+		for x := b; x != nil; x = parent[x] {
+			if x == a {
+				return true
+			}
+		}
+		return false
+	}
+	cur := before
+	for _, ev := range evs {
+		if !ev.accepted {
+			run.Count(pfx+"_handed_over_block_refused_by_worker", 1)
+			continue
+		}
+		run.Count(pfx+"_finalized_descends_from_lfb", 1)
+		if ev.prevLFB != cur || ev.b == cur || !isAnc(cur, ev.b) {
+			violate(run, "C36:finalized-block-not-descendant-of-lfb", fmt.Sprintf("%s: finalizeRound handed over the block of round %d which does not descend from the latest finalized block of round %d",
+				where, ev.b.Round, cur.Round), replay)
+		}
+		cur = ev.b
+	}
+	run.Count(pfx+"_lfb_single_chain", 1)
+	commonAnc := func(x *block.Block) bool { // x is an ancestor, in an earlier round, of every top block
+		for _, tb := range tops {
+			if x == tb || !isAnc(x, tb) {
+				return false
+			}
+		}
+		return true
+	}
+	switch {
+	case after == cur || isAnc(cur, after):
+		// the block(s) the worker accepted, or (after != cur) a descendant set without the worker
+		if after == before {
+			return "unchanged"
+		}
+		run.Count(pfx+"_forward_is_common_ancestor", 1)
+		if len(tops) > 0 && !commonAnc(after) {
+			violate(run, "C36:finalized-block-not-common-ancestor", fmt.Sprintf("%s: the latest finalized block moved forward from round %d to round %d, to a block that is not an ancestor (in an earlier round) of every notarized block of the latest round with notarized blocks",
+				where, before.Round, after.Round), replay)
+		}
+		return "forward"
+	case isAnc(after, cur):
+		run.Count(pfx+"_rollback_to_common_ancestor", 1)
+		if !commonAnc(after) {
+			violate(run, "C36:rollback-target-not-common-ancestor", fmt.Sprintf("%s: the latest finalized block was rolled back from round %d to round %d, to a block that is not an ancestor of every notarized block of the latest round with notarized blocks",
+				where, cur.Round, after.Round), replay)
+			return "rollback"
+		}
+		// most recent: the next block towards the previous latest finalized block must not qualify as well
+		x := cur
+		for parent[x] != after {
+			x = parent[x]
+		}
+		run.Count(pfx+"_rollback_most_recent", 1)
+		if commonAnc(x) {
+			violate(run, "C36:rollback-beyond-most-recent-common-ancestor", fmt.Sprintf("%s: the latest finalized block was rolled back from round %d to round %d although the finalized block of round %d is still an ancestor of every notarized block of the latest round with notarized blocks",
+				where, cur.Round, after.Round, x.Round), replay)
+		}
+		return "rollback"
+	default:
+		violate(run, "C36:lfb-moved-off-the-finalized-chain", fmt.Sprintf("%s: the latest finalized block went from round %d to a block of round %d that is neither the previous latest finalized block, nor one of its descendants, nor one of its ancestors: finalized blocks no longer form one chain",
+			where, cur.Round, after.Round), replay)
+		return "sideways"
+	}
+}
+
+// ---------------------------------------------------------------------------------------------------------------
+// rollback part: generated trees in which the latest finalized block sits on a fork that lost
+// ---------------------------------------------------------------------------------------------------------------
+
+// c36rbSpec describes one tree (rounds count from the genesis block, round 0):
+//
+//	trunk: one block per round 1..S (S = 0: the forks split at the genesis block)
+//	fork A: rounds S+1..AEnd, the latest finalized block is its block of round L (S < L <= AEnd <= T)
+//	fork B: rounds S+1..M (M = S: fork B is empty, its branches start at the split block itself)
+//	K branches of fork B: rounds M+1..T, all notarized in the top round T; with NestAt > 0 the first branch splits once more
+//	    after round NestAt (M < NestAt < T)
+//	Tail further rounds without notarized blocks; finalizeRound is called for round T+Tail
+//	Cont further rounds (only with Tail = 0) in which some of the top blocks are extended, finalizeRound after each
+//
+// AEnd == T: fork A is still alive in the top round, so the block computed for finalization is the split block itself
+// (the ordinary rollback). AEnd < T: fork A is dead and the computed block is the block of round M on fork B, which is
+// below, at or above the round of the latest finalized block and is not one of its ancestors (unless M == S).
+type c36rbSpec struct {
+	S, L, M, T, AEnd, K int
+	NestAt              int
+	Tail, Cont          int
+	Linked              bool // PrevBlock pointers kept; otherwise every previous block is resolved through the block cache
+	Driven              bool // the latest finalized block is reached by real forward finalization of fork A (rounds 1..L+3) before fork B becomes known; otherwise it is set directly (as after a restart / from an LFB ticket)
+	Progressive         bool // fork B becomes known round by round (finalizeRound after each round above L) instead of all at once
+	Repeat              bool // finalizeRound is called a second time for the same round
+}
+
+func (sp c36rbSpec) String() string {
+	nest := "no nested split"
+	if sp.NestAt > 0 {
+		nest = fmt.Sprintf("the first branch splits again after round %d", sp.NestAt)
+	}
+	return fmt.Sprintf("forks A and B split after the block of round %d; fork A runs to round %d with the latest finalized block in round %d (%s); fork B runs to round %d and splits into %d branches, all notarized in the top round %d (%s); %d trailing rounds without notarized blocks; %s; late blocks %s",
+		sp.S, sp.AEnd, sp.L, map[bool]string{true: "reached by forward finalization", false: "set directly"}[sp.Driven],
+		sp.M, sp.K, sp.T, nest, sp.Tail,
+		map[bool]string{true: "PrevBlock linked", false: "PrevBlock resolved through the block cache"}[sp.Linked],
+		map[bool]string{true: "arrive round by round", false: "arrive all at once"}[sp.Progressive])
+}
+
+func (sp c36rbSpec) position() string {
+	switch {
+	case sp.AEnd == sp.T:
+		return "fork-A-alive"
+	case sp.M == sp.S:
+		return "dead-fork/branches-from-split-block"
+	case sp.M < sp.L:
+		return "dead-fork/refork-below-lfb-round"
+	case sp.M == sp.L:
+		return "dead-fork/refork-at-lfb-round"
+	default:
+		return "dead-fork/refork-above-lfb-round"
+	}
+}
+
+// normalise makes the spec consistent (the generators draw the fields independently).
+func (sp c36rbSpec) normalise() c36rbSpec {
+	alive := sp.AEnd >= sp.T
+	if sp.Driven && sp.AEnd < sp.L+3 {
+		sp.AEnd = sp.L + 3
+	}
+	if alive {
+		if sp.T < sp.AEnd {
+			sp.T = sp.AEnd
+		}
+		sp.AEnd = sp.T
+	} else if sp.T <= sp.AEnd {
+		sp.T = sp.AEnd + 1
+	}
+	if sp.M >= sp.T {
+		sp.M = sp.T - 1
+	}
+	if sp.NestAt <= sp.M || sp.NestAt >= sp.T {
+		sp.NestAt = 0
+	}
+	if sp.Tail > 0 {
+		sp.Cont = 0
+	}
+	return sp
+}
+
+func c36rbScenario(run *mon.Run, e *c36Env, wk *c36Worker, rnd *mon.Rand, sp c36rbSpec, idx int) {
+	c := e.c
+	genesis := e.w.GB
+	c.SetLatestFinalizedBlock(genesis)
+	c.SetLatestOwnFinalizedBlockRound(genesis.Round)
+	c.LatestDeterministicBlock = genesis
+	R := sp.T + sp.Tail + sp.Cont
+	parent := map[*block.Block]*block.Block{}
+	var all []*block.Block
+	rounds := make([]*round.Round, R+1)
+	notar := make([][]*block.Block, R+1)
+	for t := 1; t <= R; t++ {
+		r := round.NewRound(int64(t))
+		if c.AddRound(r) != round.RoundI(r) {
+			panic("round already present")
+		}
+		rounds[t] = r
+	}
+	// a block becomes known (block cache) and notarized in its round at the same moment
+	mk := func(prev *block.Block) *block.Block {
+		t := int(prev.Round) + 1
+		b := e.newBlock(prev, len(notar[t]))
+		parent[b] = prev
+		c.AddBlock(b)
+		rounds[t].AddNotarizedBlock(b)
+		notar[t] = append(notar[t], b)
+		all = append(all, b)
+		return b
+	}
+	replay := map[string]interface{}{"scenario": idx, "spec": sp}
+	kinds := map[string]int{}
+	call := func(t int, tag string) string {
+		if !sp.Linked {
+			for _, b := range all {
+				b.PrevBlock = nil
+			}
+		}
+		before := c.GetLatestFinalizedBlock()
+		wk.reset()
+		c.VerifUnitchainFinalizeRound(wk.ctx, rounds[t])
+		evs := wk.take()
+		after := c.GetLatestFinalizedBlock()
+		var tops []*block.Block
+		for u := t; u >= 1 && tops == nil; u-- {
+			if len(notar[u]) > 0 {
+				tops = notar[u]
+			}
+		}
+		run.Eval(1)
+		run.Count("rollback_finalize_round_calls", 1)
+		kind := c36JudgeCall(run, "rollback", before, after, tops, parent, evs,
+			fmt.Sprintf("scenario %d [%s], finalizeRound(%d) %s, latest finalized block before the call in round %d", idx, sp, t, tag, before.Round), replay)
+		kinds[kind]++
+		run.Count("rollback_move_"+kind, 1)
+		return kind
+	}
+
+	// ---- what is known before fork B shows up
+	trunk := genesis
+	for t := 1; t <= sp.S; t++ {
+		trunk = mk(trunk)
+		if sp.Driven {
+			call(t, "while the trunk grows")
+		}
+	}
+	a := trunk
+	var lfbA *block.Block
+	aKnown := sp.AEnd
+	if sp.Driven {
+		aKnown = sp.L + 3
+	}
+	for t := sp.S + 1; t <= aKnown; t++ {
+		a = mk(a)
+		if t == sp.L {
+			lfbA = a
+		}
+		if sp.Driven {
+			call(t, "while fork A grows alone")
+		}
+	}
+	if sp.Driven {
+		if c.GetLatestFinalizedBlock() != lfbA {
+			// judged call by call above; the tree is still a valid input, only not the intended one
+			run.Count("rollback_obs_driven_lfb_differs_from_plan", 1)
+		}
+	} else {
+		c.SetLatestOwnFinalizedBlockRound(lfbA.Round)
+		c.SetLatestFinalizedBlock(lfbA)
+	}
+	lfbRound := int(c.GetLatestFinalizedBlock().Round)
+
+	// ---- the late part: the rest of fork A, fork B and its branches
+	b := trunk
+	var branches []*block.Block
+	var nested *block.Block
+	for t := sp.S + 1; t <= sp.T; t++ {
+		if t > aKnown && t <= sp.AEnd {
+			a = mk(a)
+		}
+		switch {
+		case t <= sp.M:
+			b = mk(b)
+		case t == sp.M+1:
+			for j := 0; j < sp.K; j++ {
+				branches = append(branches, mk(b))
+			}
+		default:
+			if nested != nil {
+				nested = mk(nested)
+			}
+			if sp.NestAt > 0 && t == sp.NestAt+1 {
+				nested = mk(branches[0])
+			}
+			for j := range branches {
+				branches[j] = mk(branches[j])
+			}
+		}
+		if sp.Progressive && t > lfbRound && t < sp.T {
+			call(t, "while the late blocks arrive")
+		}
+	}
+
+	// reference facts about the shape (evidence only): the deepest common ancestor of the top round, from the parent map
+	dca := append([]*block.Block{}, notar[sp.T]...)
+	for {
+		same := true
+		for i := range dca {
+			dca[i] = parent[dca[i]]
+			if dca[i] != dca[0] {
+				same = false
+			}
+		}
+		if same {
+			break
+		}
+	}
+	plfb := c.GetLatestFinalizedBlock()
+	onChain := false
+	for x := plfb; x != nil; x = parent[x] {
+		if x == dca[0] {
+			onChain = true
+		}
+	}
+	if !onChain && dca[0].Round <= plfb.Round {
+		run.Count("rollback_shape_computed_block_on_other_fork_at_or_below_lfb_round", 1)
+	} else if !onChain {
+		run.Count("rollback_shape_computed_block_on_other_fork_above_lfb_round", 1)
+	} else if dca[0] != plfb && dca[0].Round < plfb.Round {
+		run.Count("rollback_shape_computed_block_is_ancestor_of_lfb", 1)
+	}
+
+	// ---- the call under observation
+	kind := call(sp.T+sp.Tail, "after the late notarizations")
+	if !onChain && dca[0].Round <= plfb.Round && kind == "rollback" {
+		run.Count("rollback_dead_fork_rolled_back_to_split_block", 1)
+	}
+	if !onChain && kind == "unchanged" {
+		run.Count("rollback_obs_lfb_stays_on_dead_fork", 1)
+	}
+	if sp.Repeat {
+		call(sp.T+sp.Tail, "called again")
+	}
+	// ---- the chain goes on: some of the top blocks are extended
+	tops := append([]*block.Block{}, notar[sp.T]...)
+	for t := sp.T + 1; t <= sp.T+sp.Cont; t++ {
+		n := 1
+		if len(tops) > 1 && rnd.Chance(0.4) {
+			n = 2
+		}
+		var next []*block.Block
+		for j := 0; j < n; j++ {
+			next = append(next, mk(tops[rnd.Intn(len(tops))]))
+		}
+		tops = next
+		call(t, "while the chain goes on")
+	}
+
+	link := "cache"
+	if sp.Linked {
+		link = "linked"
+	}
+	run.Distinct(fmt.Sprintf("rollback:%s:split%d:lfb+%d:refork%+d:top+%d:k%d:nest%v:tail%d:%s:driven%v:prog%v:%s",
+		sp.position(), sp.S, sp.L-sp.S, sp.M-sp.L, sp.T-sp.L, sp.K, sp.NestAt > 0, sp.Tail, link, sp.Driven, sp.Progressive, kind))
+	run.Count("rollback_scenarios["+sp.position()+"]", 1)
+	if idx < 3 {
+		run.Sample(map[string]interface{}{"kind": "rollback", "spec": sp, "position": sp.position(), "lfb_round_before": plfb.Round,
+			"lfb_round_after": c.GetLatestFinalizedBlock().Round, "moves": kinds})
+	}
+
+	c.SetLatestFinalizedBlock(genesis)
+	c.SetLatestOwnFinalizedBlockRound(genesis.Round)
+	c.LatestDeterministicBlock = genesis
+	for t := 1; t <= R; t++ {
+		c.DeleteRound(context.Background(), rounds[t])
+	}
+	c.DeleteBlocks(all)
+}
+
+func c36Rollbacks(run *mon.Run, e *c36Env, wk *c36Worker, rnd *mon.Rand, thorough bool) {
+	wk.setRequireConnected(true)
+	idx := 0
+	decorate := func(sp c36rbSpec) c36rbSpec {
+		sp.Tail = 0
+		if rnd.Chance(0.4) {
+			sp.Tail = 1 + rnd.Intn(2)
+		}
+		sp.Cont = rnd.Intn(4)
+		sp.Linked = rnd.Chance(0.5)
+		sp.Driven = rnd.Chance(0.3)
+		sp.Progressive = rnd.Chance(0.2)
+		sp.Repeat = rnd.Chance(0.3)
+		if rnd.Chance(0.3) {
+			sp.NestAt = sp.M + 1 + rnd.Intn(3)
+		}
+		return sp.normalise()
+	}
+	// ---- systematic core: every position of the re-fork point relative to the latest finalized block, several depths
+	for _, s := range []int{0, 2} {
+		for dA := 1; dA <= 3; dA++ {
+			L := s + dA
+			for m := s; m <= L+2; m++ {
+				for dT := 1; dT <= 2; dT++ {
+					T := L + dT
+					if m >= L {
+						T = m + dT
+					}
+					for _, aEnd := range []int{L, (L + T) / 2, T} {
+						for k := 2; k <= 3; k++ {
+							checkpoint(run)
+							c36rbScenario(run, e, wk, rnd, decorate(c36rbSpec{S: s, L: L, M: m, T: T, AEnd: aEnd, K: k}), idx)
+							idx++
+						}
+					}
+				}
+			}
+		}
+	}
+	run.Set("rollback_systematic_scenarios", idx)
+	// ---- seeded random, wider ranges (re-fork points further above the latest finalized block than finalizeRound walks back)
+	n := 500
+	if thorough {
+		n = 20000
+	}
+	for i := 0; i < n; i++ {
+		checkpoint(run)
+		s := rnd.Intn(6)
+		L := s + 1 + rnd.Intn(6)
+		m := s + rnd.Intn(L-s+1) // at or below the round of the latest finalized block
+		if rnd.Chance(0.4) {
+			m = L + 1 + rnd.Intn(8)
+		}
+		T := L + 1 + rnd.Intn(4)
+		if m >= L {
+			T = m + 1 + rnd.Intn(4)
+		}
+		aEnd := L + rnd.Intn(T-L+1)
+		if rnd.Chance(0.25) {
+			aEnd = T
+		}
+		c36rbScenario(run, e, wk, rnd, decorate(c36rbSpec{S: s, L: L, M: m, T: T, AEnd: aEnd, K: 2 + rnd.Intn(3)}), idx)
+		idx++
+	}
+	run.Set("rollback_scenarios", idx)
 }
